@@ -297,6 +297,7 @@ func TestVerifC04(t *testing.T) {
 			}
 		}
 	}
+	scs = append(scs, c04wsScenarios()...)
 	if hx.Main("C04", scs) == 2 {
 		t.Fatal("internal error")
 	}
